@@ -30,7 +30,7 @@ RULE = ("ADMGs with 2-7 nodes (generator weighted towards sparse directed chains
         "and the run reached at least one of ID's lines 4-7.")
 ASSUMPTIONS = [
     "clause 'leaves the caller's graph and query objects unchanged' is a Python-runtime clause (R): decided by deep comparison of the graph, the argument sets and the Identification/Query objects before and after every call, not by a theorem (the model is pure)",
-    "clause 'refuses exactly when a hedge exists': the direction refusal => the c-component recursion of Tian/Huang-Valtorta gets stuck (i.e. a hedge exists) and its converse are decided per input by two independent decision procedures (c-component criterion; brute-force hedge search up to 6 nodes); the Lean theorems cover totality (only `ok`/`unidentifiable` for valid input), termination and `step_refusal_line5` (a refusal comes only from line 5 on a sub-problem whose graph and graph-minus-X are single districts); `id_fail_hedge` (refusal => hedge of the ORIGINAL query) is OPEN; hedge => non-identifiable (Shpitser-Pearl Thm 4) is literature, not mechanised",
+    "clause 'refuses exactly when the effect is not identifiable (a hedge exists)': `id_fail_iff_hedge` proves refusal <=> a hedge (Y0/Spec/Hedge.lean: Shpitser-Pearl 2006 Def. 6 on vertex sets) exists for the ORIGINAL query, both directions on the graph; 'a hedge exists => not identifiable from P(v)' (Shpitser-Pearl Thm 4: two models agreeing on P(v) and differing on P_x(y)) is literature, not mechanised; 'estimand returned => identifiable, by that estimand' is C01's id_sound; the verdict is also compared per input with two independent decision procedures (c-component criterion; brute-force hedge search up to 6 nodes)",
     "`graph.topological_sort()` (networkx, on a graph rebuilt from a Python set) is a parameter `topo` of the model; the theorems assume it returns a linear extension of the directed part (trusted: networkx); the correspondence feeds the orders observed in the real run",
 ]
 EXHAUSTIVE = {"quick": False, "thorough": False}
@@ -172,11 +172,15 @@ MANIFEST = {
              "(the guard of the well-founded definition never fires = termination), id_total / identifyOutcomes_total (valid "
              "query => only an estimand or 'unidentifiable', no internal error; uses the node-preservation facts of C14, i.e. "
              "the F1 fix), id_total_acyclic (closed form with a provably correct sorter and relational acyclicity), "
-             "step_refusal_line5 (a refusal is raised only by line 5: graph and graph minus X are single districts, X non-empty). "
-             "Completeness w.r.t. hedges is decided per input by two independent decision procedures (c-component criterion of "
-             "Tian/Huang-Valtorta; brute-force hedge search <= 5/6 nodes) which must agree with each other and with the verdict; "
-             "id_fail_hedge (refusal => hedge of the original query) is stated OPEN in Props/C02.lean; soundness of positive "
-             "verdicts is C01's id_sound. Absence of side effects: deep comparison of the caller's objects on every run."),
+             "step_refusal_line5 (a refusal is raised only by line 5: graph and graph minus X are single districts, X non-empty), "
+             "id_fail_iff_hedge: ID refuses EXACTLY when the original graph and query have a hedge in the sense of "
+             "Shpitser-Pearl Def. 6 on vertex sets (id_ok_iff_no_hedge: an estimand exactly when there is none). => "
+             "(id_fail_hedge): line 5's hedge V', V'-X' of the refusing sub-problem is transported back through lines 2, 3, "
+             "4, 7 with the same vertex sets (step_hedge, reach_hedge). <= (id_hedge_fail): a hedge survives every line of "
+             "the recursion and excludes lines 1 and 6 (step_hedge_down), so by totality ID refuses; no probability is "
+             "involved. The verdict is also compared per input with two independent decision procedures (c-component "
+             "criterion of Tian/Huang-Valtorta; brute-force hedge search <= 5/6 nodes); soundness of positive verdicts is "
+             "C01's id_sound. Absence of side effects: deep comparison of the caller's objects on every run."),
     "note": ("Trusted: Lean kernel; axioms propext/Classical.choice/Quot.sound; the hand-written model and the model of "
              "networkx/set iteration (topological order taken as a parameter), tied to the code by sampling; "
              "'hedge => not identifiable' is literature, not mechanised; 'no mutation' is a runtime clause."),
